@@ -9,8 +9,8 @@ PROPS = {
     'C20': ['contracts.suites', 'contracts.m2_client', 'contracts.m2_server', 'contracts.m2_factory'],
     'C03': ['contracts.suites', 'contracts.m2_client', 'contracts.m2_server', 'contracts.m2_keyschedule', 'contracts.m2_tls13_states', 'contracts.m2_exporter', 'contracts.m2_factory'],
     'C05': ['contracts.m2_client13', 'contracts.m2_client', 'contracts.m2_posthandshake', 'contracts.m2_server', 'contracts.m2_signverify', 'contracts.m2_binders', 'contracts.m2_server13'],
-    'C04': ['contracts.m2_client', 'contracts.m2_getmsg', 'contracts.m2_server', 'contracts.m2_keyschedule', 'contracts.m2_binders'],
-    'C06': ['contracts.m2_client', 'contracts.m2_getmsg', 'contracts.defragmenter', 'contracts.m2_server13', 'contracts.m2_server'],
+    'C04': ['contracts.m2_client', 'contracts.m2_getmsg', 'contracts.m2_server', 'contracts.m2_keyschedule', 'contracts.m2_binders', 'contracts.m2_client13_order'],
+    'C06': ['contracts.m2_client', 'contracts.m2_getmsg', 'contracts.defragmenter', 'contracts.m2_server13', 'contracts.m2_server', 'contracts.m2_client13_order'],
     'C13': ['contracts.m2_client', 'contracts.m2_posthandshake', 'contracts.m2_server', 'contracts.small_extras', 'contracts.m2_binders', 'contracts.m2_server13', 'contracts.m2_factory'],
     'C09': ['contracts.kdf', 'contracts.ciphers', 'contracts.m2_tls13_states', 'contracts.m2_exporter', 'contracts.links'],
     'C15': ['contracts.codec', 'contracts.messages_simple', 'contracts.extensions_codec', 'contracts.x509_dc'],
